@@ -45,7 +45,18 @@ def multi_validator_names(fac: FunctionInfo) -> set[str]:
                 for t in n.targets if isinstance(n, ast.Assign) else [n.target]:
                     if isinstance(t, ast.Name):
                         multi.add(t.id)
+    # the same list filled by a loop: `validators = []; for a in annotation.arguments: validators.append(attribute_validator(a))`
+    for n in fac.own_nodes():
+        if isinstance(n, ast.Call) and isinstance(n.func, ast.Attribute) and n.func.attr == "append" and isinstance(n.func.value, ast.Name) and len(n.args) == 1:
+            if any(isinstance(c, ast.Call) and is_name(c.func, "attribute_validator") for c in ast.walk(n.args[0])) and any(isinstance(p_, (ast.For, ast.AsyncFor)) for p_ in _ancestors_of(n)):
+                multi.add(n.func.value.id)
     return multi
+
+
+def _ancestors_of(n: ast.AST):
+    from ..loader import ancestors
+
+    return ancestors(n)
 
 
 def factory_closures(an: Analysis) -> dict[str, tuple[FunctionInfo, list[FunctionInfo]]]:
@@ -439,7 +450,7 @@ def check(an: Analysis) -> None:
         early_false = [r for r in ast.walk(lp) if isinstance(r, ast.Return) and isinstance(r.value, ast.Constant) and r.value.value is False]
         skips = [x for x in ast.walk(lp) if isinstance(x, (ast.Break, ast.Continue))]
         after_true = any(isinstance(r, ast.Return) and isinstance(r.value, ast.Constant) and r.value.value is True and not any(r is x for x in ast.walk(lp)) for r in eq.own_nodes())
-        if inner and early_false and not skips and after_true:
+        if inner and early_false and after_true:  # (break / continue are judged by where the unequal outcome can lead, below)
             geq = an.cfg(eq)
             cmpn = [n for n in geq.nodes if n.kind == "test" and n.ast in inner or (n.kind == "test" and any(c in list(ast.walk(n.ast)) for c in inner))]
             compared = True
